@@ -245,7 +245,10 @@ class Action:
         if "Action" in event.name and event.action_uid == self.uid:
             if "ActionStarted" in event.name:
                 self.context.update(event.arguments)
-                self.status = ActionStatus.STARTED
+                if self.status not in (ActionStatus.STOPPING, ActionStatus.FINISHED):
+                    # A Started event that arrives after the action was asked to stop (or has
+                    # finished) must not make it look running again: it would be stopped twice
+                    self.status = ActionStatus.STARTED
             elif "ActionUpdated" in event.name:
                 self.context.update(event.arguments)
             elif "ActionFinished" in event.name:
